@@ -242,6 +242,23 @@ impl Property for C05 {
                                     if pos == 0 || pos == body.len() + 1 || aborted || body.is_empty() { if strong.is_none() { strong = Some(pos); } } else { weak = true; }
                                 }
                             }
+                            // weak model, watch phase: the watch check is one round trip per watched key, so the foreign
+                            // command can land after the first j keys have been compared and before the rest
+                            if strong.is_none() && !dirty && watched.len() >= 2 {
+                                let cur0 = dump(&twin.state, false).await;
+                                for j in 1..watched.len() {
+                                    let mut t2 = twin.fork().await;
+                                    let first_ok = watched[..j].iter().all(|(k, v)| cur0.get(k).cloned() == *v);
+                                    let rb2 = t2.run(&oc).await;
+                                    let cur1 = dump(&t2.state, false).await;
+                                    let rest_ok = watched[j..].iter().all(|(k, v)| cur1.get(k).cloned() == *v);
+                                    let passes = first_ok && rest_ok;
+                                    let mut results = Vec::new();
+                                    if passes { for qc in body.iter() { results.push(t2.run(qc).await); } }
+                                    let a_ok = if passes { exec_reply_eq(&R::Arr(Some(results)), &ra) } else { ra == R::Arr(None) };
+                                    if a_ok && rb2.eq_unordered(&rb) && d_real == dump(&t2.state, true).await { weak = true; }
+                                }
+                            }
                             let Some(pos) = strong else {
                                 // a watched non-string key that had changed before EXEC: the recorded WATCH finding, not an isolation question
                                 let nonstring_changed = changed.iter().any(|(k, v)| !v.as_deref().map(|s| s.starts_with("string ")).unwrap_or(true) || !cur.get(k).map(|s| s.starts_with("string ")).unwrap_or(true));
